@@ -654,8 +654,15 @@ def trig_case(case, res):
 
 def construct_kinds_case(case, res):
     """Construction from two operands of every kind (arrays, Quantities, Phase + number)."""
-    for n, f in itertools.product([3.0, -2.0, 1e9, 2.5], [0.25, -0.3, 7.3, -1e-16]):
+    # (the two numbers in either order, also a small non-integer FIRST and a huge count SECOND: "count, fraction" is a
+    # convention, not a precondition)
+    pairs = list(itertools.product([3.0, -2.0, 1e9, 2.5], [0.25, -0.3, 7.3, -1e-16]))
+    pairs += [(f_, n_) for n_, f_ in pairs] + [(0.3, float(2 ** 40)), (-0.7, float(2 ** 51 + 1)), (0.1, 1e15), (1e-9, -float(2 ** 45)),
+                                                 (float(2 ** 40), 0.3), (0.25, 0.75), (1e-20, 1.0)]
+    for n, f in pairs:
         w = F(n) + F(f)
+        if abs(n) < abs(f):
+            res.hits["smaller number given first"] += 1
         kinds = [("float,float", lambda: Phase(n, f)), ("np,np", lambda: Phase(np.float64(n), np.float64(f))),
                  ("array,array", lambda: Phase(np.array([n, n]), np.array([f, f]))),
                  ("Quantity,Quantity", lambda: Phase(n * u.cycle, f * u.cycle)),
@@ -689,7 +696,7 @@ def main(argv=None):
         required_hits=["exact +-1/2 fraction", "imaginary phase", "factor kinds", "imaginary factor", "same factor array used twice", "in-place real<->imaginary transitions", "addend kinds",
                        "unit-mismatched addend rejected", "out= forms", "Phase divisor", "in-place remainder",
                        "remainder within 2^-52 of 0 or d (either neighbour accepted)", "whole grid as one array",
-                       "trig/exp on fractional part", "construction kinds"],
+                       "trig/exp on fractional part", "construction kinds", "smaller number given first"],
         assumptions=["operand values are read back exactly (Fractions of the stored doubles); results beyond 2^52 cycles are outside "
                      "the property", "plain-number divisors of // % divmod are refused by astropy (unit error) and left open",
                      "list * Phase (Python sequence repetition) is not arithmetic"],
